@@ -534,7 +534,7 @@ def check_contract(calls, bad):
             if not r <= TOL_RES * den:
                 bad.append('contract: %s pair %d has backward error %.2e' % (c['solver'], j, r / max(den, 1e-300)))
                 break
-        if np.any(np.diff(mu) < -1e-9 * max(1e-300, np.abs(mu).max())):
+        if len(mu) and np.any(np.diff(mu) < -1e-9 * max(1e-300, np.abs(mu).max())):
             bad.append('contract: %s values not ascending' % c['solver'])
         if c['solver'] == 'eigsh' and W.shape[1] != c['kw'].get('k'):
             bad.append('contract: eigsh returned %d columns for k=%r' % (W.shape[1], c['kw'].get('k')))
